@@ -1,4 +1,6 @@
 """C18 - structured event-data operations are lossless."""
+import contextlib
+import io
 import os
 
 import numpy as np
@@ -267,6 +269,39 @@ def run(ctx):
                 ok = set(map(str, flat_a)) == set(map(str, flat_b)) and all(
                     np.array_equal(np.asarray(flat_a[k]), np.asarray({str(kk): vv for kk, vv in flat_b.items()}[str(k)])) for k in flat_a)
                 ctx.check("structured data file round trip", ok, lambda: dict(desc(), saver=saver.__name__), mechanism="save/load structured data: " + saver.__name__)
+            # the loader's cached-data file: the first ConfigLoader computes data/phsp/bg and writes the cache, a fresh one reads it
+            if i % 3 == 1 and n >= 5:
+                import copy
+
+                from tf_pwa.config_loader import ConfigLoader
+
+                def mom_file(tag2, m):
+                    psx = cards.events(card, m, rng, classes=False)
+                    fnx = os.path.join(wd, "cd_%s_%d.dat" % (tag2, i))
+                    np.savetxt(fnx, np.stack([psx[j] for j in perm]).transpose((1, 0, 2)).reshape((-1, 4)))
+                    return fnx
+
+                wfile = os.path.join(wd, "cd_w_%d.dat" % i)
+                np.savetxt(wfile, rng.uniform(0.3, 1.7, n + 3))
+                cfgd = copy.deepcopy(card["config"])
+                cache = os.path.join(wd, "cache_%d.npy" % i)
+                scale = bool(i % 2)
+                cfgd["data"] = {"dat_order": order, "data": [mom_file("data", n + 3)], "phsp": [mom_file("phsp", 2 * n)], "bg": [mom_file("bg", n)],
+                                "data_weight": [wfile], "cached_data": cache, "weight_scale": scale, "bg_weight": 0.4}
+                with contextlib.redirect_stdout(io.StringIO()):
+                    first = ConfigLoader(copy.deepcopy(cfgd)).get_all_data()
+                    second = ConfigLoader(copy.deepcopy(cfgd)).get_all_data()
+                ok_c, bad_c = os.path.exists(cache), []
+                for nm_, a_, b_ in zip(("data", "phsp", "bg"), first, second):
+                    fa_ = {str(k): np.asarray(v) for k, v in D.flatten_dict_data(D.data_to_numpy(a_[0])).items()}
+                    fb_ = {str(k): np.asarray(v) for k, v in D.flatten_dict_data(D.data_to_numpy(b_[0])).items()}
+                    for k in fa_:
+                        if k not in fb_ or fa_[k].shape != fb_[k].shape or not np.array_equal(fa_[k], fb_[k]):
+                            ok_c = False
+                            bad_c.append((nm_, k, fa_[k].ravel()[:2].tolist(), None if k not in fb_ else fb_[k].ravel()[:2].tolist()))
+                ctx.check("structured data file round trip", ok_c, lambda: dict(desc(), weight_scale=scale, differing=bad_c[:3]),
+                          mechanism="cached_data file (weight_scale=%s): leaves differ after reading the cache back" % scale)
+                ctx.covered("cached_data_weight_scale", scale)
             ctx.case(("file", nb, perm, n), nontrivial=True)
             ctx.covered("dat_order_perm", perm)
             # lazy vs eager.  LazyCall recomputes the preprocessor output per batch; (aligned) angles carry the library's
